@@ -5,6 +5,7 @@ import RTV.Drv.Timex
 import RTV.Drv.Factory
 import RTV.Drv.Re
 import RTV.Drv.Cal
+import RTV.Drv.DtRes
 /-! Model driver: one operation per input line (tab-separated), one answer line per operation.
 Run compiled (`.lake/build/bin/rtvdriver`) or with `lake env lean --run Driver.lean`. -/
 open RTV.Drv
@@ -18,6 +19,7 @@ def dispatch (line : String) : String :=
       <|> dispatchRe op args
       <|> dispatchTimex op args
       <|> dispatchCal op args
+      <|> dispatchDtRes op args
       <|> dispatchNum op args
       -- <|> dispatchOther op args   (one alternative per layer)
       ).getD "bad-op"
